@@ -558,9 +558,7 @@ func (vc *VC) appendOp(st *State, s, t *Term, rt types.Type, pos token.Pos) *Ter
 			return "(select (select " + h0 + " (s-ref " + t.S + ")) " + vc.at("(s-off "+t.S+")", i) + ")"
 		}
 	}
-	if v, ok := vc.constOf[tlen]; ok {
-		tlen = v
-	}
+	tlen = simplifySel(tlen)
 	h0 := vc.heapGet(st, hv)
 	slen, soff, scap := "(s-len "+s.S+")", "(s-off "+s.S+")", "(s-cap "+s.S+")"
 	newlen := vc.define("nlen", &Term{vc.add(slen, tlen), idx, nil}).S
